@@ -25,6 +25,7 @@ def run_batch(ctx, module: str, traces: list, *, batch: int = 2000, timeout: flo
     rejected: list = []
     inv: list = []
     diags: dict = {}
+    views: dict = {}
     for off in range(0, len(traces), batch):
         live = list(range(off, min(off + batch, len(traces))))
         while live:
@@ -51,9 +52,11 @@ def run_batch(ctx, module: str, traces: list, *, batch: int = 2000, timeout: flo
                 rejected.append((live[int(a) - 1], int(b)))
             for d in tlaval.extract_printed(r.stdout, "DIAG"):
                 diags[(live[d[0] - 1], d[1])] = d[2]
+                if len(d) > 3:
+                    views[(live[d[0] - 1], d[1])] = d[3]
             ctx.traces_validated += len(live)
             break
-    return {"rejected": rejected, "invariant": inv, "diags": diags}
+    return {"rejected": rejected, "invariant": inv, "diags": diags, "views": views}
 
 
 def validate(ctx, module: str, traces: list, *, cfg: str | None = None, batch: int = 2000, timeout: float = 1800, dfs: bool = False,
